@@ -15,18 +15,18 @@ import (
 // in the wrong mode (e.g. journal replay tolerant although StrictJournal was requested, or block
 // checksums tied to a flag that is off by default); a new, unreviewed consumer is reported.
 var strictRoles = map[string][]string{
-	"(*leveldb.session).recover":            {"StrictManifest"},
-	"(*leveldb.DB).recoverJournal":          {"StrictJournal", "StrictJournalChecksum"},
-	"(*leveldb.DB).recoverJournalRO":        {"StrictJournal", "StrictJournalChecksum"},
-	"leveldb.recoverTable":                  {"StrictRecovery"},
-	"(*leveldb.DB).tableCompaction":         {"StrictCompaction"},
-	"(*leveldb.compaction).newIterator":     {"StrictCompaction"},
-	"(*leveldb.DB).newRawIterator":          {"StrictReader"},
-	"(*leveldb.DB).newIterator":             {"StrictReader"},
-	"(*leveldb.version).getIterators":       {"StrictReader"},
-	"(*leveldb/table.Reader).NewIterator":   {"StrictReader"},
-	"leveldb/table.NewReader":               {"StrictBlockChecksum"},
-	"leveldb/opt.GetStrict":                 {"StrictOverride", "*param"},
+	"(*leveldb.session).recover":          {"StrictManifest"},
+	"(*leveldb.DB).recoverJournal":        {"StrictJournal", "StrictJournalChecksum"},
+	"(*leveldb.DB).recoverJournalRO":      {"StrictJournal", "StrictJournalChecksum"},
+	"leveldb.recoverTable":                {"StrictRecovery"},
+	"(*leveldb.DB).tableCompaction":       {"StrictCompaction"},
+	"(*leveldb.compaction).newIterator":   {"StrictCompaction"},
+	"(*leveldb.DB).newRawIterator":        {"StrictReader"},
+	"(*leveldb.DB).newIterator":           {"StrictReader"},
+	"(*leveldb.version).getIterators":     {"StrictReader"},
+	"(*leveldb/table.Reader).NewIterator": {"StrictReader"},
+	"leveldb/table.NewReader":             {"StrictBlockChecksum"},
+	"leveldb/opt.GetStrict":               {"StrictOverride", "*param"},
 }
 
 func ruleStrictFlagRoles(p *Prog, r *Report, rule string) {
